@@ -1,6 +1,7 @@
 import OpcuaModel.Base.Bytes
 import OpcuaModel.Base.Algo
 import OpcuaModel.Gen.SeqNum
+import OpcuaModel.Gen.VadFacts
 /-
   Byte-level model of the secure-channel chunk path (C07, C08):
 
@@ -153,9 +154,14 @@ def paddingOf (s : Side) (asym : Bool) (msg : Bytes) : Res Nat :=
   else .ok 0
 
 /-- `verifyAndDecrypt` after the decryption step: split off and verify the
-    signature, strip the padding -/
+    signature, strip the padding.  The two defensive guards are present in the
+    model exactly when the generator finds them in the source
+    (`Gen.sigLengthGuard`, `Gen.paddingGuard`, topic `vadfacts`); without them
+    the same inputs make the Go code panic. -/
 def verifyTail (s : Side) (asym : Bool) (hl : Nat) (b : Bytes) : Res Bytes :=
   let rsl := s.algo.remoteSignatureLength.toNat
+  -- `if len(b) < headerLength+c.algo.RemoteSignatureLength() { return nil, BadSecurityChecksFailed }`
+  if Gen.sigLengthGuard = true ∧ b.length < hl + rsl then .err else
   if b.length < rsl then .panic else                   -- b[len(b)-RemoteSignatureLength():]
   let signature := b.drop (b.length - rsl)
   let msg := b.take (b.length - rsl)
@@ -164,6 +170,8 @@ def verifyTail (s : Side) (asym : Bool) (hl : Nat) (b : Bytes) : Res Bytes :=
   | .err => .err
   | .panic => .panic
   | .ok paddingLength =>
+    -- `if paddingLength > len(messageToVerify)-headerLength { return nil, BadSecurityChecksFailed }`
+    if Gen.paddingGuard = true ∧ (paddingLength : Int) > (msg.length : Int) - (hl : Int) then .err else
     -- messageToVerify[headerLength : len(messageToVerify)-paddingLength]
     if msg.length < paddingLength ∨ msg.length - paddingLength < hl then .panic
     else .ok ((msg.take (msg.length - paddingLength)).drop hl)
